@@ -191,7 +191,7 @@ int main(int argc, char **argv)
         {
             size_t p2 = 1;
             while (p2 < L) p2 *= 2;
-            for (size_t q : {p2, 2 * p2}) if (q >= 32 && q <= (args.thorough() ? 65536u : 32768u)) rset.insert(q);
+            for (size_t q : {p2, 2 * p2}) if (q >= 32 && q <= (args.num("light", 0) ? 4096u : (args.thorough() ? 65536u : 32768u))) rset.insert(q);
             for (long long d : {-1LL, 0LL, 1LL}) { long long v = (long long)L + d; if (v > 17 && v <= 1100) cset.insert((size_t)v); }
         }
         for (int b = 0; b < NB; b++)
